@@ -73,10 +73,8 @@ func vh_http_parse() {
 	hk := vhToken("hkey", 1+vnChoice("hklen", 2))
 	hv := vhToken("hval", 1+vnChoice("hvlen", 2))
 	hasHeader := vnBool("hasheader")
-	body := vnString("body", vnChoice("bodylen", 3))
-	for i := 0; i < len(body); i++ {
-		vassume(body[i] != '\r' && body[i] != '\n' && body[i] != ':' && body[i] < 0x7f)
-	}
+	// the body is arbitrary bytes (it may contain CR, LF, ':' and ' ')
+	body := vnString("body", vnChoice("bodylen", 5))
 	raw := method + " " + path + " HTTP/1.1\r\n"
 	if hasHeader {
 		raw += hk + ": " + hv + "\r\n"
